@@ -208,6 +208,70 @@ def r15f(rep, prog):
     return n
 
 
+def r15h(rep, prog):
+    """every neighbour of the popped vertex that has not been seen yet is discovered: the discovery (mark + queue) of w is conditioned only on
+    identity tests between vertices (self-loop, the source), the visited mark and the hop bound.  A structural filter on w (`out_degree(w) == 1:
+    nothing is reached through a leaf`) also filters the *target* when it is such a vertex - the target is recognised when it is popped, so
+    it is never found, the edge is retained and closes a cycle of at most 2k edges in the spanner."""
+    from .c10 import guards_formula
+    what = 'the discovery of a neighbour in is_bfs_reachable is filtered only by vertex identity, the visited mark and the hop bound'
+    n = 0
+    for fn in prog.fns('parmcb::is_bfs_reachable'):
+        cfg = fn.cfg
+        if len(fn.param_ids) < 4:
+            continue
+        sparam, tparam, hparam = fn.param_ids[1], fn.param_ids[2], fn.param_ids[3]
+        pushes = [x for x in fn.walk() if x.k == 'CXXMemberCallExpr' and x.callee and x.callee['name'] in ('push', 'push_back', 'emplace', 'emplace_back')
+                  and (prog.base_type(x.object_arg().strip_all().j.get('t')) or {}).get('rec') in ('std::queue', 'std::deque', 'std::list', 'std::vector')
+                  and x.args() and ex.var_of(x.args()[0]) not in (None, sparam)]
+        for pu in pushes:
+            lp = pu.enclosing('ForStmt', 'CXXForRangeStmt', 'WhileStmt')
+            if lp is None:
+                continue
+            n += 1
+            wv = ex.var_of(pu.args()[0])
+
+            def vertexish(e):
+                t_ = prog.type(e.strip_all().j.get('t')) or {}
+                return 'ertex' in (t_.get('s') or '') or ex.var_of(e) in (sparam, tparam, wv)
+
+            def atomize(leaf):
+                s_ = leaf.strip_all()
+                if s_.k == 'BinaryOperator' and s_.op in ('==', '!=') and len(s_.c) == 2 and ex.var_of(s_.c[0]) is not None and ex.var_of(s_.c[1]) is not None \
+                        and (vertexish(s_.c[0]) or vertexish(s_.c[1])):
+                    return ex.f_atom(('ident', leaf.i))
+                if s_.k == 'BinaryOperator' and s_.op in ('<', '<=', '>', '>=') and hparam in (ex.var_of(s_.c[0]), ex.var_of(s_.c[1])):
+                    return ex.f_atom(('bound', leaf.i))
+                if s_.k == 'CallExpr' and s_.callee and s_.callee['g'] == 'std::get' and s_.args():
+                    return ex.f_atom(('visited', leaf.i))
+                v_ = ex.var_of(s_)
+                if v_ is not None and ((prog.base_type(prog.vars[v_].get('ty')) or {}).get('bool') or (prog.type(s_.j.get('t')) or {}).get('canon') == 'bool'):
+                    d_ = ex.unique_def(fn, v_)
+                    if d_ is not None and any(x.k == 'CallExpr' and x.callee and x.callee['g'] in ('std::get', 'boost::get') for x in [d_.strip_all()] + list(d_.walk())):
+                        return ex.f_atom(('visited', leaf.i))
+                if s_.k in ('CXXOperatorCallExpr',) and s_.op == '[]':
+                    return ex.f_atom(('visited', leaf.i))
+                return None
+            g = guards_formula(cfg, pu, atomize)
+            opq = [a_ for a_ in ex.f_atoms(g) if isinstance(a_, tuple) and a_ and a_[0] == 'opaque' and lp.body is not None and lp.body.is_ancestor_of(fn.nodes[a_[1]])]
+            bad = und = None
+            for a_ in opq:
+                cn = fn.nodes[a_[1]]
+                if ex.refs_var(cn, wv) and not ex.refs_var(cn, tparam):
+                    bad = cn
+                else:
+                    und = cn
+            if bad is not None:
+                rep.violation('R15h', pu, fn, what, 'the neighbour is skipped under `%s` (line %d), a test of the neighbour that does not exempt the target: when the target is '
+                              'such a vertex it is never discovered, is_bfs_reachable answers false for an endpoint that is within the hop bound, and the edge '
+                              'closes a short cycle in the spanner' % (bad.text(50), bad.line), key='R15h|%s|filter' % fn.g)
+            elif und is not None:
+                rep.undecided('R15h', pu, fn, what, 'discovery also depends on `%s`' % und.text(50))
+            else:
+                rep.ok('R15h', pu, fn, what)
+    return n
+
+
 def r02h_bfs(rep, names=('is_bfs_reachable',)):
     """hop distances of the bounded BFS are set once, at discovery (R02h restricted to is_bfs_reachable; C06 adds the closing-path Dijkstra)"""
     from . import search
@@ -224,12 +288,14 @@ def run(rep, tier):
     c05.run_rules(rep, tier, list(RULES), RULES)
     rep.rule('R15f', 'bounded BFS answers true only within the hop bound', floor=1)
     rep.rule('R15g', 'hop counters of the bounded BFS are as wide as the hop bound', floor=1)
+    rep.rule('R15h', 'the bounded BFS discovers every unseen neighbour within the bound (no structural pruning that can hide the target)', floor=1)
     n = 0
     rep.rule('R07k', 'numeric_limits<T>::infinity() only for floating-point T (the hop counter combines with closed_plus<size_t>, whose closed value must not be 0)', floor=0)
     from . import c07
     for prog in env.extract([env.witness_tu()], 'full').values():
         n += r15f(rep, prog)
         r15g(rep, prog)
+        r15h(rep, prog)
         c07.r07k(rep, prog)
     if n == 0:
         rep.analysis_broken('parmcb::is_bfs_reachable is not instantiated (anchor vanished)')
